@@ -56,6 +56,9 @@ CHECKS["C13"] = ("exhaustive enumeration of every macro use graph over up to 3 (
 CHECKS["C14"] = ("exhaustive enumeration of every applicable single semantic mutation (about 190 invalid lines x insertion positions, structural mutations, all unsupported INT numbers) of verified-valid base programs; each mutant checked at library level and through the real CLI binary",
     "Every mutant must be refused: Preprocessor Err or the driver-level label/start checks, and on the real binary a non-empty diagnostic with no program output, prompt or interrupt output; base programs are first verified to run and print so that silence means refusal.",
     "DESIGN.md section 6 C14")
+CHECKS["C17"] = ("bounded-exhaustive enumeration of machine states (register rotations, all 512 combinations of the nine flags, patterned memory), range forms x starts x lengths x 5 spellings, and of prompt scripts with one print command (100+ command alphabet) at every prompt position, each run through the real CLI binary; stdout parsed back and compared with the reference interpreter's state; prints after every print decide 'never alters'",
+    "Every register holds every lattice value once, every combination of the nine flags, ranges of length 0..64 at 8 starts incl. the top of memory in both absolute forms and DS-relative for DS over the segment lattice (incl. ranges leaving the space and backwards ranges, which must be reported), constants in all radices and beyond 2^20 / 2^64; the same commands typed at INT 3, -i and trap-flag prompts.",
+    "DESIGN.md section 6 C17")
 NOT_YET = {}
 
 def main():
